@@ -43,8 +43,20 @@ def gen_adapters(rng):
             h = rnd_seq(rng, L // 2, "ACGT")
             s = h + R.revcomp(h)  # palindromic: both orientations score the same
         rate = rng.choice([0, 0.1, 0.2, 0.4, 0.5, 0.9])
-        specs.append(dict(type=t, seq=s, rate=rate, o=rng.randint(1, 4), indels=rng.random() < 0.7, name=f"a{i}"))
+        sp = dict(type=t, seq=s, rate=rate, o=rng.randint(1, 4), indels=rng.random() < 0.7, name=f"a{i}")
+        if rng.random() < 0.15:
+            # a linked adapter: its score is the sum of the scores of the parts that were found
+            sp.update(type="linked", seq2=rnd_seq(rng, rng.randint(4, 12), "ACGT"), anchored=rng.random() < 0.5, rate=rng.choice([0, 0.1, 0.2]),
+                      req=(rng.random() < 0.5, rng.random() < 0.5))
+        specs.append(sp)
     return specs
+
+
+def mscore(m):
+    """Score of an applied match, for a linked match computed from its parts (not read off the object under test)."""
+    if hasattr(m, "front_match"):
+        return (m.front_match.score if m.front_match is not None else 0) + (m.back_match.score if m.back_match is not None else 0)
+    return m.score
 
 
 def build(specs):
@@ -54,6 +66,11 @@ def build(specs):
                suffix=A.SuffixAdapter, nfront=A.NonInternalFrontAdapter, nback=A.NonInternalBackAdapter)
     ads = []
     for sp in specs:
+        if sp["type"] == "linked":
+            f = (A.PrefixAdapter if sp["anchored"] else A.FrontAdapter)(sp["seq"], max_errors=sp["rate"], indels=sp["indels"], **({} if sp["anchored"] else dict(min_overlap=sp["o"])))
+            b = A.BackAdapter(sp["seq2"], max_errors=sp["rate"], indels=sp["indels"], min_overlap=sp["o"])
+            ads.append(A.LinkedAdapter(f, b, front_required=sp["req"][0] or sp["anchored"], back_required=sp["req"][1], name=sp["name"]))
+            continue
         kw = dict(max_errors=sp["rate"], indels=sp["indels"], name=sp["name"])
         if sp["type"] not in ("prefix", "suffix"):
             kw["min_overlap"] = sp["o"]
@@ -65,7 +82,7 @@ def gen_read(rng, specs):
     s = rnd_seq(rng, rng.randint(0, 30), "ACGT")
     for _ in range(rng.choice([0, 1, 1, 2])):
         sp = rng.choice(specs)
-        a = sp["seq"]
+        a = sp["seq"] if not (sp["type"] == "linked" and rng.random() < 0.5) else sp["seq"] + rnd_seq(rng, rng.randint(0, 6), "ACGT") + sp["seq2"]
         if rng.random() < 0.3:
             a = a[: rng.randint(1, len(a))] if rng.random() < 0.5 else a[rng.randint(0, len(a) - 1):]
         if rng.random() < 0.4:
@@ -101,7 +118,7 @@ def api_single(ctx, specs, ads, opts, read):
     fwd_t, fwd_m = cutter.match_and_trim(rec[:])
     rev_in = SequenceRecord(nm, R.revcomp(read), q[::-1])
     rev_t, rev_m = cutter.match_and_trim(rev_in[:])
-    fs, rs = sum(m.score for m in fwd_m), sum(m.score for m in rev_m)
+    fs, rs = sum(mscore(m) for m in fwd_m), sum(mscore(m) for m in rev_m)
     use = bool(rev_m) and rs > fs
     # the stage may receive a read that earlier stages have already shortened: the record as read from the input
     # (kept in the ModificationInfo) is then longer than the read the stage works on
@@ -184,8 +201,8 @@ def api_paired(ctx, specs1, ads1, specs2, ads2, opts, r1s, r2s):
     f2, f2m = mt(c2, r2)
     s1, s1m = mt(c1, r2)
     s2, s2m = mt(c2, r1)
-    fs = sum(m.score for m in f1m) + sum(m.score for m in f2m)
-    ss = sum(m.score for m in s1m) + sum(m.score for m in s2m)
+    fs = sum(mscore(m) for m in f1m) + sum(mscore(m) for m in f2m)
+    ss = sum(mscore(m) for m in s1m) + sum(mscore(m) for m in s2m)
     use = bool(s1m or s2m) and ss > fs
     i1, i2 = ModificationInfo(r1), ModificationInfo(r2)
     rc0 = prc.reverse_complemented
@@ -217,7 +234,7 @@ def api_paired(ctx, specs1, ads1, specs2, ads2, opts, r1s, r2s):
 def cli_case(ctx, k):
     rng = ctx.rng("c16cli", k)
     paired = rng.random() < 0.3
-    ads1 = [G.gen_adapter(rng, i, kinds=["a", "g", "b", "a$", "g^", "aX"]) for i in range(rng.randint(1, 2))]
+    ads1 = [G.gen_adapter(rng, i, kinds=["a", "g", "b", "a$", "g^", "aX", "linked"]) for i in range(rng.randint(1, 2))]
     ads2 = [G.gen_adapter(rng, i, upper=True, prefix="bd", kinds=["a", "g"]) for i in range(rng.randint(0, 1))] if paired else []
     action = rng.choice(["trim", "trim", "mask", "lowercase", "none", "retain"])
     times = 1 if action == "retain" else rng.choice([1, 1, 2])
@@ -264,7 +281,8 @@ def cli_case(ctx, k):
         if paired_rename:
             ctx.count("cli_paired_runs_with_adapter_names_in_the_read_names")
         side_files = (not paired) and rng.random() < 0.6
-        side = (lambda t: ["--info-file", f"{t}.info", "--rest-file", f"{t}.rest"]) if side_files else (lambda t: [])
+        has_linked = any(a["kind"] == "linked" for a in ads1)     # the rest file is documented not to work with linked adapters
+        side = (lambda t: ["--info-file", f"{t}.info"] + ([] if has_linked else ["--rest-file", f"{t}.rest"])) if side_files else (lambda t: [])
         out0 = out
         out = lambda t: out0(t) + side(t)
         argv_r = base + ["--revcomp", "--json", "rep.json"] + ren + out("r") + inputs
@@ -365,7 +383,7 @@ def cli_case(ctx, k):
                         m.setdefault(fastx.rid(nm), []).append(cols)
                 return m
             IR, IF, IC = by_read("r.info", 0), by_read("f.info", 0), by_read("c.info", 0)
-            RR, RF, RC = by_read("r.rest", 1), by_read("f.rest", 1), by_read("c.rest", 1)
+            RR, RF, RC = (by_read("r.rest", 1), by_read("f.rest", 1), by_read("c.rest", 1)) if not has_linked else ({}, {}, {})
             if None in (IR, IF, IC, RR, RF, RC):
                 ctx.violation("cli-side-output", f"info/rest file missing; argv={argv_r}", case)
             else:
@@ -408,6 +426,8 @@ def run_shard(ctx):
             ctx.count("specs_rejected")
             continue
         action = rng.choice(["trim", "trim", "mask", "lowercase", "none", "retain", "crop"])
+        if action == "crop" and any(sp["type"] == "linked" for sp in specs):
+            action = "trim"      # crop with a linked adapter ends in a traceback (known, outside the properties)
         times = 1 if action in ("retain", "crop") else rng.choice([1, 1, 2, 3])
         opts = dict(action=action, times=times, suffix=rng.choice([" rc", " rc", None]))
         for _ in range(8):
@@ -417,6 +437,8 @@ def run_shard(ctx):
             try:
                 ads2 = build(specs2)
             except Exception:
+                continue
+            if opts["action"] == "crop" and any(sp["type"] == "linked" for sp in specs2):
                 continue
             s1, a1 = (specs, ads) if rng.random() < 0.8 else ([], [])
             if not a1 and not ads2:
